@@ -92,6 +92,9 @@ func WriteFileAt(dir *os.File, filename string, data []byte, perm os.FileMode) e
 			werr = io.ErrShortWrite
 		case werr == nil:
 			written += n
+			if written < len(data) {
+				verifKillPoint("after-partial-write", filename)
+			}
 		}
 	}
 	verifKillPoint("after-write", filename)
